@@ -302,10 +302,16 @@ def run_layout(ctx, spec, viol, cases, lines, outs, choices=None):
             elif all(n == "." or n in info for n in names):
                 want = expected_by_statement(fmt, info, nroots, own_ctl, names, recurse, before)
                 want_new = set(w for w in want if w not in before)
-                if new - want_new:
-                    viol.append((case, "versioned although the statement excludes it: %r" % sorted(new - want_new), None))
-                if want_new - new:
-                    missing = sorted(want_new - new)
+                # entries that carry a control-directory name without being one (empty `.bzr`
+                # directory, `.bzr` file ...): the statement does not say; neither demanded nor refused
+                fake = [q for q in info if q.rsplit("/", 1)[-1] in (".bzr", ".git") and not info[q][4]
+                        and q not in names]
+                dontcare = set(q for q in info if any(under(x, q) for x in fake))
+                if new - want_new - dontcare:
+                    viol.append((case, "versioned although the statement excludes it: %r"
+                                 % sorted(new - want_new - dontcare), None))
+                if want_new - new - dontcare:
+                    missing = sorted(want_new - new - dontcare)
                     fam = None
                     if fmt == "2a" and len(names) >= 2:
                         # a named directory D below another named directory D0, with a nested tree or a
